@@ -3312,3 +3312,124 @@ func E9PendingPerSubpath(c *core.Ctx, r *core.Report) {
 	r.Count("E9.pending-per-subpath", n)
 	r.Floor("E9.pending-per-subpath", 2)
 }
+
+// E9InflectionAcrossLine: the crossing test at a parallel tangent applies the tangency functional to the next derivative.
+func E9InflectionAcrossLine(c *core.Ctx, r *core.Report) {
+	r.Rule("E9.inflection-across-line", "intersectionLineCube marks a hit as a touch when the curve's derivative has no component across the line: `tangent := Equal(F(deriv), 0)` with F the product with the line's normal. Where the tangent is parallel, the curve still crosses when the distance to the line has a triple root, i.e. when the second derivative has no component across the line either. The condition under which `tangent` is set back to false is therefore the same functional applied to the second derivative — `Equal(F(deriv2), 0)`, F textually the one of the tangency test with the derivative variable replaced — and not a test that the second derivative vanishes in both coordinates, which holds only for curves that are locally straight")
+	p := c.MustPkg("")
+	info := p.TypesInfo
+	fd := core.MustFuncDecl(p, "intersectionLineCube")
+	r.Func("canvas.intersectionLineCube")
+	key := "canvas.intersectionLineCube|crossing at a parallel tangent decided by the second derivative across the line"
+	r.Count("E9.inflection-across-line", 1)
+	// tangent := Equal(F(deriv), 0.0)
+	var tangent types.Object
+	var functional ast.Expr
+	var d1 types.Object
+	callee := func(e ast.Expr) string {
+		if call, ok := core.Unparen(e).(*ast.CallExpr); ok {
+			if f := core.CalleeOf(info, call); f != nil {
+				return f.Name()
+			}
+		}
+		return ""
+	}
+	derivOf := map[types.Object]string{}
+	ast.Inspect(fd.Body, func(m ast.Node) bool {
+		as, ok := m.(*ast.AssignStmt)
+		if !ok || len(as.Lhs) != 1 || len(as.Rhs) != 1 {
+			return true
+		}
+		lid, ok := as.Lhs[0].(*ast.Ident)
+		if !ok {
+			return true
+		}
+		switch name := callee(as.Rhs[0]); name {
+		case "cubicBezierDirection", "cubicBezierDeriv", "cubicBezierDeriv2", "cubicBezierDeriv3":
+			derivOf[core.ObjOf(info, lid)] = name
+		case "Equal":
+			call := core.Unparen(as.Rhs[0]).(*ast.CallExpr)
+			if len(call.Args) == 2 && tangent == nil {
+				for o, which := range derivOf {
+					if which == "cubicBezierDirection" || which == "cubicBezierDeriv" {
+						found := false
+						ast.Inspect(call.Args[0], func(k ast.Node) bool {
+							if id, ok := k.(*ast.Ident); ok && core.ObjOf(info, id) == o {
+								found = true
+							}
+							return true
+						})
+						if found {
+							tangent, functional, d1 = core.ObjOf(info, lid), call.Args[0], o
+						}
+					}
+				}
+			}
+		}
+		return true
+	})
+	if tangent == nil {
+		r.Fail("E9.inflection-across-line", key, c.Pos(fd.Pos()), "the tangency test `t := Equal(F(derivative), 0)` was not found in intersectionLineCube")
+		return
+	}
+	// the if statement whose body sets tangent = false
+	var guard *ast.IfStmt
+	ast.Inspect(fd.Body, func(m ast.Node) bool {
+		is, ok := m.(*ast.IfStmt)
+		if !ok {
+			return true
+		}
+		for _, s := range is.Body.List {
+			if as, ok := s.(*ast.AssignStmt); ok && len(as.Lhs) == 1 && len(as.Rhs) == 1 {
+				if lid, ok := as.Lhs[0].(*ast.Ident); ok && core.ObjOf(info, lid) == tangent {
+					if rid, ok := core.Unparen(as.Rhs[0]).(*ast.Ident); ok && rid.Name == "false" {
+						guard = is
+					}
+				}
+			}
+		}
+		return true
+	})
+	if guard == nil {
+		r.Fail("E9.inflection-across-line", key, c.Pos(fd.Pos()), "no branch sets the touch flag back to false: a cubic that crosses the line at an inflection with parallel tangent is never counted")
+		return
+	}
+	// expected: Equal(F[deriv := d2], 0)
+	var d2 types.Object
+	for o, which := range derivOf {
+		if which == "cubicBezierDeriv2" {
+			ast.Inspect(guard.Cond, func(k ast.Node) bool {
+				if id, ok := k.(*ast.Ident); ok && core.ObjOf(info, id) == o {
+					d2 = o
+				}
+				return true
+			})
+		}
+	}
+	if d2 == nil {
+		r.Fail("E9.inflection-across-line", key, c.Pos(guard.Pos()), fmt.Sprintf("the condition `%s` does not look at the second derivative", types.ExprString(guard.Cond)))
+		return
+	}
+	want := strings.ReplaceAll(" "+types.ExprString(functional)+" ", d1.Name(), d2.Name())
+	want = strings.TrimSpace(want)
+	good := false
+	if call, ok := core.Unparen(guard.Cond).(*ast.CallExpr); ok && callee(call) == "Equal" && len(call.Args) == 2 {
+		got := types.ExprString(call.Args[0])
+		// the scalar product is symmetric
+		if dc, ok := core.Unparen(call.Args[0]).(*ast.CallExpr); ok && len(dc.Args) == 1 {
+			if se, ok := dc.Fun.(*ast.SelectorExpr); ok && se.Sel.Name == "Dot" && got != want {
+				got = types.ExprString(dc.Args[0]) + ".Dot(" + types.ExprString(se.X) + ")"
+			}
+		}
+		if got == want {
+			if v := core.ConstVal(info, call.Args[1]); v != nil && constant.Sign(v) == 0 {
+				good = true
+			}
+		}
+	}
+	if good {
+		r.OK("E9.inflection-across-line", key, c.Pos(guard.Pos()), types.ExprString(guard.Cond))
+	} else {
+		r.Fail("E9.inflection-across-line", key, c.Pos(guard.Pos()), fmt.Sprintf("the touch flag is cleared under `%s`; the distance to the line has a triple root — the curve crosses — when `Equal(%s, 0.0)`: the second derivative need only have no component across the line, it does not vanish at the inflection of an ordinary cubic. With the stronger test a cubic crossing the ray at its inflection is a touch, and a point inside gets winding number 0", types.ExprString(guard.Cond), want))
+	}
+}
